@@ -198,6 +198,17 @@ def extra_checks(tier, seed):
              "detail": "; ".join(bad), "witness": {"mismatch": bad}, "replay": {"mismatch": bad}}]
 
 
+def provides(keys, units):
+    """the get_type ghost contract (contracts/helpers.py) is carried by the mapper units: the real add_type / get_type
+    over a dictionary with symbolic keys"""
+    if "dali.device.helpers:DeviceInstanceTypeMapper.get_type" in keys:
+        return [u for u in units if "/mapper/" in u.name]
+    return []
+
+
+# checks whose proof units establish the callee contracts applied here (re-verified by this check, see main.dependency_units)
+DEPENDENCIES = ['C04', 'C05']
+
 META = {
     "level": "proof",
     "bounds": {"event frames": "all 2^23 24-bit frames with bit 16 clear (symbolic), with no map, with a map answering any "
